@@ -685,6 +685,49 @@ func c08Merge(c *Ctx, t *tables.Tree) {
 			merged, mergedVal = al, st.Val
 		}
 	})
+	// or a constructor helper that wraps the list it is given in a fresh
+	// Database (and builds its indexes): the rules below then look at the helper
+	home := fn
+	var viaCtor *ssa.Call
+	if merged == nil {
+		for _, ret := range ssau.ReturnsOf(fn) {
+			call, ok := ret.Results[0].(*ssa.Call)
+			if !ok {
+				continue
+			}
+			h := call.Common().StaticCallee()
+			if h == nil || h.Blocks == nil || !c.P.IsRepoFunc(h) || h.Signature.Results().Len() != 1 {
+				continue
+			}
+			var al *ssa.Alloc
+			okAll := true
+			for _, hr := range ssau.ReturnsOf(h) {
+				a, isA := hr.Results[0].(*ssa.Alloc)
+				if !isA || (al != nil && al != a) || ssau.NamedOf(a.Type()) != dbType {
+					okAll = false
+				}
+				al = a
+			}
+			if !okAll || al == nil {
+				continue
+			}
+			for _, ref := range *al.Referrers() {
+				fa, isFA := ref.(*ssa.FieldAddr)
+				if !isFA || ssau.FieldName(fa) != "Commands" {
+					continue
+				}
+				for _, r2 := range *fa.Referrers() {
+					if st, isSt := r2.(*ssa.Store); isSt {
+						for i, hp := range h.Params {
+							if st.Val == ssa.Value(hp) && i < len(call.Common().Args) {
+								merged, mergedVal, home, viaCtor = al, call.Common().Args[i], h, call
+							}
+						}
+					}
+				}
+			}
+		}
+	}
 	if merged == nil {
 		r.Unknown("O-5", fk+"#merged", c.P.Pos(fn.Pos()), "no fresh Database literal with Commands found")
 		return
@@ -713,13 +756,22 @@ func c08Merge(c *Ctx, t *tables.Tree) {
 	}
 	r.Check(okOrder, "O-5", fk+"#merge-order", c.P.Pos(mergedVal.Pos()), "main entries followed by notebook entries", detail)
 	// both index builds on the merged database, on every path to its return
-	pd := ssau.NewPostDom(fn)
+	pd := ssau.NewPostDom(home)
 	for _, m := range []string{"BuildUniversalIndex", "buildTFIDFSearcher"} {
 		found := false
-		ssau.ForEachInstr(fn, false, func(in ssa.Instruction) {
+		ssau.ForEachInstr(home, false, func(in ssa.Instruction) {
 			call, ok := in.(*ssa.Call)
-			if ok && ssau.CallName(call) == "(*"+dbType+")."+m && call.Common().Args[0] == ssa.Value(merged) && pd.PostDominates(call.Block(), merged.Block()) {
-				found = true
+			if !ok || !pd.PostDominates(call.Block(), merged.Block()) {
+				return
+			}
+			want := "build"
+			if m == "buildTFIDFSearcher" {
+				want = "tfidf"
+			}
+			for _, t := range rebuildTags(call, "(*"+dbType+").BuildUniversalIndex", "(*"+dbType+").buildTFIDFSearcher", func(v ssa.Value) bool { return v == ssa.Value(merged) }, 0) {
+				if t == want {
+					found = true
+				}
 			}
 		})
 		r.Check(found, "O-5", fk+"#"+m, c.P.Pos(merged.Pos()), "index built for the merged database", "the merged database is returned without "+m+": searches run on a missing or stale index")
@@ -727,7 +779,7 @@ func c08Merge(c *Ctx, t *tables.Tree) {
 	// returned value on the merge path is the merged database
 	retOK := false
 	for _, ret := range ssau.ReturnsOf(fn) {
-		if ret.Results[0] == ssa.Value(merged) {
+		if ret.Results[0] == ssa.Value(merged) || (viaCtor != nil && ret.Results[0] == ssa.Value(viaCtor)) {
 			retOK = true
 		}
 	}
